@@ -962,6 +962,7 @@ func goldenCalls(sum *Summary) {
 		{"obj.Id = jso.t|ifThen(jso.{nokey|s})|upper()\nobj.Name = jso.fl|ifThenElse(\"y\", jso.o.{name|k})|suffix(\"?\")\n", "S:ABC", "B:nm?", []string{"mod:upper(str:abc)", "mod:suffix(str:nm,B:?)"}},
 		{"probe(jso.{nokey|s}, \"lit\", 5, jso.o.k, jso.{nul|n})\nobj.Id = ident(jso.{nokey|s2}, jso.s)\nif eq(jso.{nokey|s}, \"abc\") {\nobj.Name = \"yes\"\n}\n", "S:xyz", "B:yes", []string{"cb:probe(str:abc,B:lit,B:5,num:5,num:7)", "get:ident(str:xyz,str:abc)", "cond:eq(str:abc,B:abc)"}},
 		{"probe(\"a,b\", 'c, d', jso.s, \"for x\")\nobj.Id = ident(\"wait for it, please\")\nobj.Name = jso.s|suffix(\", if \", \"z\")\n", "S:wait for it, please", "B:abc, if z", []string{"cb:probe(B:a,b,B:c, d,str:abc,B:for x)", "get:ident(B:wait for it, please)", "mod:suffix(str:abc,B:, if ,B:z)"}},
+		{"probe(\"it's, fine\", 'say \"a, b\" twice', jso.s)\nobj.Id = ident(\"rock'n, roll\", jso.s2)\nobj.Name = jso.s|suffix(\"'\", \",\", 'x\"y, z')\n", "S:rock'n, roll", "B:abc',x\"y, z", []string{"cb:probe(B:it's, fine,B:say \"a, b\" twice,str:abc)", "get:ident(B:rock'n, roll,str:xyz)", "mod:suffix(str:abc,B:',B:,,B:x\"y, z)"}},
 		{"obj.Name = jso.s|upper()|suffix(\"1\")|ns::suffix(\"2\", \"3\")|bar::baz()\nobj.Id = jso.{nokey}|default(\"d\")|suffix(jso.{s2})\n", "S:dxyz", "B:ABC123", []string{"mod:upper(str:abc)", "mod:suffix(B:ABC,B:1)", "mod:ns::suffix(B:ABC1,B:2,B:3)", "mod:suffix(B:d,str:xyz)"}},
 	} {
 		c := singleJob("golden calls", Job{Prog: g.prog, doc: doc, Fail: -1})
